@@ -16,6 +16,7 @@ Line-protocol driver for the C20 model (`lake build c20drv`). All numbers are de
   rc <b> <hash>                                      -> notfound | <hash>.<tag>.<events>@<block>
   univ <addrs> <slots> <classhashes>                 -> ok          (comma lists; reads are answered over this universe)
   base <n> <table>                                   -> ok          (reader returned by StateAtBlockNumber(n))
+  unbase <n>                                         -> ok          (StateAtBlockNumber(n) fails from now on)
   state <b> <block>  (view SnapshotForBlock(b), PreConfirmedStateAt(block))      -> notfound | nobase | <reads>
   statebi <b> <block> <index>                        -> notfound | broken | oob | nobase | <reads>
 
@@ -251,38 +252,33 @@ def step (s : DState) (line : String) : DState × String :=
     match nat? n, parseTables? t with
     | some n, some t => ({ s with bases := AMap.set s.bases n t }, "ok")
     | _, _ => (s, "bad-op")
+  | ["unbase", n] =>
+    match nat? n with
+    | some n => ({ s with bases := s.bases.filter (fun kv => kv.1 != n) }, "ok")
+    | none => (s, "bad-op")
   | ["state", b, blk] =>
     match nat? b, nat? blk with
     | some b, some blk =>
       let v := snapshotFor s.store b
-      (s, match stateAt v blk (fun _ => dummyBase) with
-          | none => "notfound"
-          | some _ =>
-            match baseAt s (v.oldest - 1) with
-            | none => "nobase"
-            | some base =>
-              match stateAt v blk (fun _ => base) with
-              | none => "notfound"
-              | some p =>
-                let es := v.oldestFirst.take (blk - (v.oldest - 1))
-                if aliasAgrees (es.map (·.diff)) p.diff then showReads s p ++ " " ++ showLastUpd s p es
-                else "ALIAS-MISMATCH")
+      (s, match stateAt v blk (baseAt s) with
+          | .error .notFound => "notfound"
+          | .error .noBase => "nobase"
+          | .error _ => "bad-op"
+          | .ok p =>
+            let es := v.oldestFirst.take (blk + 1 - v.oldest)
+            if aliasAgrees (es.map (·.diff)) p.diff then showReads s p ++ " " ++ showLastUpd s p es
+            else "ALIAS-MISMATCH")
     | _, _ => (s, "bad-op")
   | ["statebi", b, blk, idx] =>
     match nat? b, nat? blk, nat? idx with
     | some b, some blk, some idx =>
       let v := snapshotFor s.store b
-      (s, match stateBeforeIndexAt v blk idx (fun _ => dummyBase) with
+      (s, match stateBeforeIndexAt v blk idx (baseAt s) with
           | .error .notFound => "notfound"
           | .error .invariantBroken => "broken"
           | .error .indexOutOfBounds => "oob"
-          | .ok _ =>
-            match baseAt s (v.oldest - 1) with
-            | none => "nobase"
-            | some base =>
-              match stateBeforeIndexAt v blk idx (fun _ => base) with
-              | .ok p => showReads s p
-              | .error _ => "bad-op")
+          | .error .noBase => "nobase"
+          | .ok p => showReads s p)
     | _, _, _ => (s, "bad-op")
   | _ => (s, "bad-op")
 
